@@ -143,7 +143,8 @@ def make_tasks(call_no, victim_pids):
         def slow_gen():
             # the caller is still DISPATCHING (inside dispatch_one_batch, Parallel._lock held) when the victim dies
             # and while the manager thread fails the futures
-            for it in items[:2]:
+            # dispatch_one_batch pulls batch_size * n_jobs items from the input before it submits any of them
+            for it in items[:N]:
                 yield it
             t = time.time()
             while time.time() - t < 20:
@@ -154,7 +155,7 @@ def make_tasks(call_no, victim_pids):
                     pass
                 time.sleep(0.01)
             time.sleep(1.0)
-            for it in items[2:]:
+            for it in items[N:]:
                 time.sleep(0.02)
                 yield it
         return slow_gen()
